@@ -1,7 +1,7 @@
 (* Proofs/Pipeline.v — Encode followed by Decode inside the model: the proofs of
    the lemmas closed by Properties/C03_pipeline.v. *)
 From JWT Require Import Proofs.SubDecode Base.Codec Base.B64 Model.Claims Model.Decode Model.Encode Model.Pipeline
-                        Proofs.Codec Proofs.Claims Proofs.Decode Proofs.Encode.
+                        Proofs.Codec Proofs.Claims Proofs.Decode Proofs.Encode Proofs.V1Codec.
 Open Scope string_scope.
 Open Scope Z_scope.
 
@@ -381,3 +381,82 @@ Proof.
   split; [eexists; split; vm_compute; reflexivity|].
   intros jparse s Hs. unfold p_parse_ident. rewrite Hs. vm_compute. reflexivity.
 Qed.
+
+(* ====================================================================== *)
+(* generic claims: Encode then Decode, given that the kind/version probe    *)
+(* reads the payload (the condition K4 is about)                           *)
+(* ====================================================================== *)
+Section MainGeneric.
+  Variable jparse : string -> option json.
+  Variable jprint : json -> string.
+  Hypothesis Hjp : forall j, jparse (jprint j) = Some j.
+  Variable H : string -> string.
+  Variable sign : string -> string.
+  Variable verify : string -> string -> string -> bool.
+  Variable role_of : string -> role.
+
+  Lemma load_claims_generic i um :
+    (lib_version <? id_version i) = false ->
+    (forall k, k <> KGeneric -> id_kind i <> kind_name k) ->
+    id_kind i <> "cluster" -> id_kind i <> "server" -> um KGeneric (id_version i) = true ->
+    load_claims i um = Some (KGeneric, -1).
+  Proof.
+    intros Hv Hk Hc Hs Hu. unfold load_claims. cbv zeta. rewrite Hv.
+    rewrite (proj2 (String.eqb_neq _ _) (Hk KOperator ltac:(discriminate))).
+    rewrite (proj2 (String.eqb_neq _ _) (Hk KAccount ltac:(discriminate))).
+    rewrite (proj2 (String.eqb_neq _ _) (Hk KUser ltac:(discriminate))).
+    rewrite (proj2 (String.eqb_neq _ _) (Hk KActivation ltac:(discriminate))).
+    rewrite (proj2 (String.eqb_neq _ _) (Hk KAuthRequest ltac:(discriminate))).
+    rewrite (proj2 (String.eqb_neq _ _) (Hk KAuthResponse ltac:(discriminate))).
+    rewrite (proj2 (String.eqb_neq _ _) Hc), (proj2 (String.eqb_neq _ _) Hs), Hu. reflexivity.
+  Qed.
+
+  Theorem generic_encode_decode : forall (issuer : string) (now : Z) (v v' : val) (tok : string) (j : json) (i : ident),
+    (forall text, verify issuer text (sign text) = true) ->
+    has_type sch_generic v' = true ->
+    encode H jprint sign KGeneric true issuer now v = Some (v', tok) ->
+    enc sch_generic v' = Some j ->
+    getp sch_generic ["iss"] v' = Some (VStr issuer) -> issuer <> "" ->
+    (* the probe reads the payload, and what it reads names no kind with a loader of its own, no retired kind,
+       and no version newer than the library's *)
+    p_parse_ident jparse (jprint j) = Some i ->
+    (lib_version <? id_version i) = false ->
+    (forall k, k <> KGeneric -> id_kind i <> kind_name k) -> id_kind i <> "cluster" -> id_kind i <> "server" ->
+    exists a d,
+      p_decode jparse verify role_of tok = Some a /\
+      a_kind a = KGeneric /\ a_iss a = issuer /\ a_layout a = LV2 /\
+      p_loaded jparse (jprint j) KGeneric 2 = Some d /\ canon d = canon v'.
+  Proof.
+    intros issuer now v v' tok j i Hver Hty He Hj Giss Hiss Hid Hv Hk Hc Hs.
+    unfold encode in He. cbn [negb] in He. cbv iota in He.
+    destruct (stamp H jprint KGeneric issuer now v) as [sv|] eqn:Es; [|discriminate He].
+    destruct (enc (schema_of KGeneric) sv) as [j'|] eqn:Ej; [|discriminate He].
+    injection He as -> <-. change (schema_of KGeneric) with sch_generic in Ej. rewrite Hj in Ej. injection Ej as <-.
+    assert (Hsc : scopes_ok (schema_of KGeneric) v' = true) by (apply no_keyset_scopes_ok; vm_compute; reflexivity).
+    destruct (claims_roundtrip KGeneric v' j Hty Hsc eq_refl Hj) as [d [Hd Hcn]].
+    set (h := b64enc (jprint header_json)). set (p := b64enc (jprint j)).
+    set (sg := b64enc (sign (h ++ "." ++ p))).
+    assert (Hsplit : split dot (token_of jprint sign j) = [h; p; sg]) by apply token_of_split.
+    assert (Eum : forall ver, p_unmarshal_ok jparse (jprint j) KGeneric ver = true).
+    { intros ver. unfold p_unmarshal_ok. rewrite Hjp. unfold load_val. now rewrite Hd. }
+    destruct (sub_decode sch_claims_data sch_generic v' j (cd_sub KGeneric) (schema_of_wf KGeneric) Hty Hj) as [wc [Hdc Hac]].
+    assert (Eiss : p_issuer_of jparse (jprint j) = issuer).
+    { unfold p_issuer_of. rewrite Hjp, Hdc. unfold get_str, getp.
+      rewrite (agree_get_path 8 sch_claims_data sch_generic ["iss"] wc v' (VStr issuer) TStr Hac);
+        [reflexivity | vm_compute; reflexivity | left; reflexivity | exact Giss]. }
+    exists {| a_kind := KGeneric; a_iss := issuer; a_version := id_version i; a_declared := id_kind i;
+              a_typ := token_type_jwt; a_alg := alg_new; a_layout := LV2 |}, d.
+    split; [|cbn [a_kind a_iss a_layout]; repeat split; try assumption; unfold p_loaded, load_val; now rewrite Hjp].
+    unfold p_decode, decode. rewrite Hsplit.
+    unfold h at 1. rewrite b64dec_enc, (parse_header_own jparse jprint Hjp).
+    replace (header_valid token_type_jwt alg_new) with true by (vm_compute; reflexivity). cbn [negb]. cbv iota.
+    unfold p at 1. rewrite b64dec_enc, Hid.
+    rewrite (load_claims_generic i (p_unmarshal_ok jparse (jprint j)) Hv Hk Hc Hs (Eum _)).
+    unfold sg at 1. rewrite b64dec_enc.
+    cbn [ckind_eqb]. cbv zeta.
+    replace ((alg_new =? alg_old)%string) with false by reflexivity. cbv iota.
+    replace (lib_version <=? 1) with false by reflexivity. cbv iota.
+    rewrite Eiss, (protected_text LV2 (token_of jprint sign j) h p sg Hsplit). cbn [text_of].
+    rewrite Hver. cbn [negb]. cbv iota. reflexivity.
+  Qed.
+End MainGeneric.
